@@ -128,7 +128,9 @@ func (s *SourceFileSet) file(p Pos) *SourceFile {
 
 		// f.base <= int(p) by definition of searchFiles
 		if int(p) <= f.Base+f.Size {
-			s.LastFile = f // race is ok - s.last is only a cache
+			// do not update s.LastFile here: the file set of a Bytecode is
+			// shared by every VM running it, and an unsynchronised write is
+			// a data race
 			return f
 		}
 	}
